@@ -1,11 +1,20 @@
 /-
   Driver for C02: line = "scenario<TAB>implObs"; see harness/props/c02/run.go for both formats.
 
-  Three things the environment decides, not the input, are inferred from what the implementation did
+  The model judged with is `Cfg.code` — the code as it is, the three repairs of notes/C02.fix-{1,2,3}.patch included
+  (input prefix `legacy`: `(legacy (wf …) …)` evaluates the code as it was; by hand only). `hyp` is `Trans.judge`'s
+  verdict: it names only the three open DEPLOY corners; a violation anywhere else — in particular in one of the four
+  repaired corners — is "-", i.e. a plain VIOLATION.
+
+  Four things the environment decides, not the input, are inferred from what the implementation did
   (the model is evaluated for each choice and the first one that reproduces the observation is printed):
     * lossy — when a MESSAGE call of a command failed (`undeliv`), the core's scheduler client drops its
       subscription, so replies of the other targets that had not arrived yet are lost: those targets then
       behave as `silent` (every such assignment is covered by the theorems, which quantify over all outcomes);
+    * unsent — in the same situation the MESSAGE calls of co-targets that had not been issued yet fail inside the
+      scheduler client: the master never sees them (they are missing from the observed command set) and the core
+      treats them as undeliverable; only considered for the request with the `undeliv` script (always the last one
+      observed) and only for targets the master did not see;
     * early — TASK_RUNNING updates that overtake the roster (`Launch.okEarly`) and/or the dropped "root is ACTIVE"
       notification (`Workflow.notifyLost`) — the harness cannot tell the two apart; only considered when the harness
       attests that every task was running and acknowledged by the core well before DEPLOY gave up (`running-acked`);
@@ -58,7 +67,7 @@ def parseScenario (x : SExp) : Option (Cfg × Scenario) :=
       | _ => none
     | _ => none
   match x with
-  | .list (.atom "fixed" :: rest) => go Cfg.fixed rest
+  | .list (.atom "legacy" :: rest) => go Cfg.legacy rest   -- by hand only (probe against a tree without the repairs)
   | .list rest => go Cfg.code rest
   | _ => none
 
@@ -97,6 +106,38 @@ def lose (outs : List Outcome) : List Outcome :=
     outs.map (fun o => if o = .ok ∨ o = .errorReplyStaySrc ∨ o = .errorReplyToError then .silent else o)
   else outs
 
+/-- Calls lost with the subscription: in a command with an undeliverable target, a co-target whose MESSAGE the master
+    never saw (`seen` = the implementation's observed command set) had its call fail in the client: undeliverable too. -/
+def unsent (seen : List Nat) (outs : List Outcome) : List Outcome :=
+  if outs.any (· = .undeliverable) then
+    (indexed outs).map (fun p => if seen.contains p.1 then p.2 else .undeliverable)
+  else outs
+
+/-- The outcome scripts of the request behind the k-th observation (0 = the CONFIGURE of NewEnvironment). -/
+def reqOuts (sc : Scenario) : Nat → List Outcome
+  | 0 => sc.configure
+  | k + 1 => go k sc.steps
+where go : Nat → List SStep → List Outcome
+  | _, [] => []
+  | n, .die _ :: r => go n r
+  | 0, .ctl _ o _ :: _ => o
+  | n + 1, .ctl _ _ _ :: r => go n r
+
+def mapReq (f : List Outcome → List Outcome) (sc : Scenario) : Nat → Scenario
+  | 0 => { sc with configure := f sc.configure }
+  | k + 1 => { sc with steps := go k sc.steps }
+where go : Nat → List SStep → List SStep
+  | _, [] => []
+  | n, .die o :: r => .die o :: go n r
+  | 0, .ctl e o w :: r => .ctl e (f o) w :: r
+  | n + 1, .ctl e o w :: r => .ctl e o w :: go n r
+
+/-- The master saw only `seen` of the last request's commands. -/
+def restrictLast (seen : List Nat) : List Obs → List Obs
+  | [] => []
+  | [o] => [{ o with cmd := o.cmd.filter seen.contains }]
+  | o :: r => o :: restrictLast seen r
+
 /-- The watcher can only get in first if a critical commanded task went to ERROR (error reply with state ERROR,
     or death) while the command as a whole waits for somebody's time-out. -/
 def watcherPossible (ts : List Target) : Bool :=
@@ -128,11 +169,25 @@ def processLine (line : String) : String :=
   | [inp, impl] =>
     match (SExp.parse inp).bind parseScenario with
     | some (cfg, sc) =>
-      let cands := [(false, false), (false, true), (true, false), (true, true)].map (fun (l, w) => variant sc l w)
-        ++ [{ sc with wf := early sc.wf }]
-      let outs := cands.map (fun c => (c, showObs (run cfg c)))
-      let chosen := (outs.find? (fun p => p.2 == impl)).getD (variant sc false false, showObs (run cfg (variant sc false false)))
       let implObs : Option (List Obs) := do (← (← SExp.parse impl).list?).mapM? parseObs
+      let lw := [(false, false), (false, true), (true, false), (true, true)]
+      let cands := lw.map (fun (l, w) => variant sc l w) ++ [{ sc with wf := early sc.wf }]
+      -- calls lost in the client: only for the last observed request, only if it has an undeliverable target
+      let lost : List (Scenario × String) :=
+        match implObs with
+        | some os =>
+          match os.getLast? with
+          | some o =>
+            let k := os.length - 1
+            if (reqOuts sc k).any (· = .undeliverable) then
+              lw.map (fun (l, w) =>
+                let c := variant (mapReq (unsent o.cmd) sc k) l w
+                (c, showObs (restrictLast o.cmd (run cfg c))))
+            else []
+          | none => []
+        | none => []
+      let outs := cands.map (fun c => (c, showObs (run cfg c))) ++ lost
+      let chosen := (outs.find? (fun p => p.2 == impl)).getD (variant sc false false, showObs (run cfg (variant sc false false)))
       let (spec, hyp) :=
         match implObs with
         | none => (false, "-")
